@@ -504,6 +504,31 @@ pub fn lists_for(r: &mut Rng, c: &Cred, per_cred: usize) -> Vec<Attack> {
         let fmt = if r.chance(1, 2) { Fmt::Compact } else { Fmt::Json };
         out.push(list_attack(c, &label, l, fmt));
     }
+    // shapes only one serialization can express
+    let genuine: Vec<String> = c.parts.disclosures.clone();
+    if genuine.len() >= 2 {
+        // JSON: ONE list entry that is two genuine disclosures joined by the compact separator (and entries with the separator at
+        // an end): such an entry is no disclosure; nothing it is made of may be disclosed by it
+        let i = r.below(genuine.len());
+        let mut j = r.below(genuine.len());
+        if j == i {
+            j = (i + 1) % genuine.len();
+        }
+        for (label, entry) in [("joined-by-separator", format!("{}~{}", genuine[i], genuine[j])), ("separator-appended", format!("{}~", genuine[i])), ("separator-prepended", format!("~{}", genuine[j]))] {
+            let rest: Vec<String> = genuine.iter().enumerate().filter(|(k, _)| *k != i && *k != j).map(|(_, d)| d.clone()).collect();
+            let mut l = rest.clone();
+            l.insert(r.below(l.len() + 1), entry);
+            out.push(list_attack(c, &format!("json-entry-{}", label), l, Fmt::Json));
+        }
+        // Compact: no "~" after the last disclosure, so that it sits where a key-binding JWT would (none is asked for): it is
+        // not one of the presented disclosures
+        let k = r.range(1, genuine.len());
+        let shown: Vec<String> = genuine[..k].to_vec();
+        let mut a = list_attack(c, "compact-last-disclosure-in-the-key-binding-position", shown[..k - 1].to_vec(), Fmt::Compact);
+        a.args.input = format!("{}~{}", c.parts.jwt, shown.join("~"));
+        a.name = format!("compact-last-disclosure-in-the-key-binding-position: {} disclosures, compact", k);
+        out.push(a);
+    }
     out
 }
 
